@@ -90,7 +90,16 @@ impl<'a> Gen<'a> {
             let rest = if self.rng.chance(50) { self.rng.below(1 << 39) } else { self.rng.below(4) << 30 | self.rng.below(4) << 21 | self.rng.below(8) << 12 };
             canon(p4 << 39 | rest)
         };
-        canon(v) & al
+        let mut v = canon(v);
+        // recursive view: lower-level indices that coincide with the recursive index
+        if let Some(r) = self.rec {
+            if self.rng.chance(8) {
+                let lvl = self.rng.below(3);
+                let sh = 30 - 9 * lvl;
+                v = canon((v & !(0x1ff << sh)) | ((r as u64) << sh));
+            }
+        }
+        v & al
     }
 
     fn frame(&mut self, size: Size, identity: bool) -> u64 {
